@@ -12,6 +12,7 @@ import (
 // Val is a symbolic value: an SMT term, or an executor-side address, tuple or
 // closure.
 type Val struct {
+	Ghost bool // a total ghost map (SMT array), indexed directly
 	T    string
 	S    string
 	Addr *Addr
@@ -91,9 +92,9 @@ func fieldHeapName(owner types.Type, i int) string {
 }
 func elemHeapName(elem types.Type) string { return "E$" + typeKey(elem) }
 func boxHeapName(t types.Type) string     { return "B$" + typeKey(t) }
-func mapHeapNames(m *types.Map) (md, mv, mc string) {
+func mapHeapNames(m *types.Map) (md, mv string) {
 	k := typeKey(m.Key()) + "$" + typeKey(m.Elem())
-	return "MD$" + k, "MV$" + k, "MC$" + k
+	return "MD$" + k, "MV$" + k
 }
 
 type heapInfo struct {
@@ -117,7 +118,7 @@ func (e *Exec) heapTerm(st *State, name string) string {
 	if _, ok := e.ctx.declared[t]; !ok {
 		e.ctx.declare(t, hi.sort)
 		if st.epoch == 0 {
-			e.entryHeapFacts(name, t, hi)
+			e.heapFacts(name, t, hi, e.nextRef0, "true")
 		}
 	}
 	return t
@@ -125,13 +126,12 @@ func (e *Exec) heapTerm(st *State, name string) string {
 
 // entryHeapFacts: at function entry every reference stored in memory refers
 // to an object allocated before entry; every slice header is well formed.
-func (e *Exec) entryHeapFacts(name, t string, hi *heapInfo) {
+func (e *Exec) heapFacts(name, t string, hi *heapInfo, nextRef, pc string) {
 	if hi.valType == nil {
 		if hi.kind == 'G' {
-			e.ctx.assume("(forall ((r Int)) (! (= (select " + t + " r) 0) :pattern ((select " + t + " r))))")
-		}
-		if hi.kind == 'C' {
-			e.ctx.assume("(forall ((r Int)) (! (>= (select " + t + " r) 0) :pattern ((select " + t + " r))))")
+			if nextRef == e.nextRef0 {
+				e.ctx.assume("(forall ((r Int)) (! (= (select " + t + " r) 0) :pattern ((select " + t + " r))))")
+			}
 		}
 		return
 	}
@@ -144,9 +144,9 @@ func (e *Exec) entryHeapFacts(name, t string, hi *heapInfo) {
 	case 'V':
 		v, bind = "(select (select "+t+" r) k)", "((r Int) (k "+hi.keySort+"))"
 	}
-	f := e.valueFacts(v, hi.valType, e.nextRef0)
+	f := e.valueFacts(v, hi.valType, nextRef)
 	if f != "true" {
-		e.ctx.assume("(forall " + bind + " (! " + f + " :pattern (" + v + ")))")
+		e.ctx.assume(imp(pc, "(forall "+bind+" (! "+f+" :pattern ("+v+")))"))
 	}
 }
 
@@ -214,13 +214,42 @@ func (e *Exec) elemHeap(elem types.Type) string {
 func (e *Exec) boxHeap(t types.Type) string {
 	return e.regHeap(boxHeapName(t), arraySort(sInt, e.ctx.sortOf(t)), t, 'B', "")
 }
-func (e *Exec) mapHeaps(m *types.Map) (string, string, string) {
-	md, mv, mc := mapHeapNames(m)
+func (e *Exec) mapHeaps(m *types.Map) (string, string) {
+	md, mv := mapHeapNames(m)
 	ks := e.ctx.sortOf(m.Key())
 	e.regHeap(md, arraySort(sInt, arraySort(ks, sBool)), nil, 'D', ks)
 	e.regHeap(mv, arraySort(sInt, arraySort(ks, e.ctx.sortOf(m.Elem()))), m.Elem(), 'V', ks)
-	e.regHeap(mc, arraySort(sInt, sInt), nil, 'C', ks)
-	return md, mv, mc
+	return md, mv
+}
+
+// cardFn returns the cardinality function for sets of keys of sort ks,
+// declaring it with the finite-set axioms (named lemmas CARD-*) on first use.
+func (e *Exec) cardFn(ks string) string {
+	fn := "card_" + sanitize(ks)
+	if _, ok := e.ctx.declared[fn]; ok {
+		return fn
+	}
+	as := arraySort(ks, sBool)
+	e.ctx.declareFun(fn, []string{as}, sInt)
+	e.ctx.declareFun(fn+"_wit", []string{as}, ks)
+	e.ctx.declareFun(fn+"_dwit", []string{as, as}, ks)
+	ax := []string{
+		fmt.Sprintf("(forall ((A %s)) (! (>= (%s A) 0) :pattern ((%s A))))", as, fn, fn),
+		fmt.Sprintf("(= (%s ((as const %s) false)) 0)", fn, as),
+		fmt.Sprintf("(forall ((A %s) (k %s)) (! (= (%s (store A k true)) (+ (%s A) (ite (select A k) 0 1))) :pattern ((%s (store A k true)))))", as, ks, fn, fn, fn),
+		fmt.Sprintf("(forall ((A %s) (k %s)) (! (= (%s (store A k false)) (- (%s A) (ite (select A k) 1 0))) :pattern ((%s (store A k false)))))", as, ks, fn, fn, fn),
+		fmt.Sprintf("(forall ((A %s) (k %s)) (! (=> (select A k) (>= (%s A) 1)) :pattern ((select A k) (%s A))))", as, ks, fn, fn),
+		fmt.Sprintf("(forall ((A %s)) (! (=> (> (%s A) 0) (select A (%s_wit A))) :pattern ((%s A))))", as, fn, fn, fn),
+		fmt.Sprintf("(forall ((A %s) (B %s)) (! (or (and (select A (%s_dwit A B)) (not (select B (%s_dwit A B)))) (and (<= (%s A) (%s B)) (=> (= (%s A) (%s B)) (= A B)))) :pattern ((%s A) (%s B))))", as, as, fn, fn, fn, fn, fn, fn, fn, fn),
+	}
+	if !e.uses("CARD-SUBSET") {
+		ax = ax[:len(ax)-1]
+	}
+	for _, a := range ax {
+		e.ctx.assume(a)
+	}
+	e.trust("finite-set cardinality lemmas CARD (card >= 0; card(empty) = 0; card of insert/delete; member ==> card >= 1; card > 0 ==> some member; A subset B ==> |A| <= |B| with equality only if A = B) are assumed mathematical facts about Go maps (which are finite)")
+	return fn
 }
 
 // setHeap installs a new version of a heap, naming it with a fresh constant so
@@ -240,6 +269,14 @@ func (e *Exec) havocHeap(st *State, name string) (string, string) {
 	c := e.ctx.fresh(name, hi.sort)
 	st.heaps[name] = c
 	return old, c
+}
+
+// havocHeapTyped havocs a heap and re-asserts the typing facts that hold of
+// any heap (stored references are allocated, slice headers well formed).
+func (e *Exec) havocHeapTyped(st *State, name, nextRefAfter string) (string, string) {
+	old, nw := e.havocHeap(st, name)
+	e.heapFacts(name, nw, e.heapInfos[name], nextRefAfter, st.pc)
+	return old, nw
 }
 
 // ---------------------------------------------------------------- merging
@@ -466,3 +503,28 @@ func describeAddr(a *Addr) string {
 }
 
 var _ = strings.Join
+
+func (e *Exec) uses(name string) bool {
+	if e.spec == nil {
+		return false
+	}
+	for _, u := range e.spec.Uses {
+		if u == name {
+			return true
+		}
+	}
+	return false
+}
+
+// elemAt is the i-th element of slice sl in element heap version ht. It is
+// an SMT function with a definitional axiom so that quantifier patterns can
+// mention it without arithmetic sub-terms.
+func (e *Exec) elemAt(ht string, elem types.Type, sl, i string) string {
+	fn := "el$" + typeKey(elem)
+	if _, ok := e.ctx.declared[fn]; !ok {
+		hs := arraySort(sInt, arraySort(sInt, e.ctx.sortOf(elem)))
+		e.ctx.declareFun(fn, []string{hs, sSlice, sInt}, e.ctx.sortOf(elem))
+		e.ctx.assume(fmt.Sprintf("(forall ((H %s) (s Slice) (i Int)) (! (= (%s H s i) (select (select H (sl_ref s)) (+ (sl_off s) i))) :pattern ((%s H s i))))", hs, fn, fn))
+	}
+	return app(fn, ht, sl, i)
+}
